@@ -238,6 +238,8 @@ func init() {
 		{Pkg: "components", Fn: "VxH19split", Params: p("n", 4), MustReach: []string{"ran"}, MustAssert: []string{"C19.split.parts-concatenate-to-input", "C19.split.no-part-longer-than-limit"}},
 		{Pkg: "components", Fn: "VxH19concat", Params: p("n", 0), MustReach: []string{"ran"}, MustAssert: []string{"C19.concat.every-input-once-newline-terminated"}},
 		{Pkg: "components", Fn: "VxH19concat", Params: p("n", 3), MustReach: []string{"ran"}, MustAssert: []string{"C19.concat.every-input-once-newline-terminated", "C19.concat.arrival-order"}},
+		{Pkg: "components", Fn: "VxH19cmd", Params: p("n", 0), MustReach: []string{"ran"}, MustAssert: []string{"C19.src.command-every-line-once"}},
+		{Pkg: "components", Fn: "VxH19cmd", Params: p("n", 2), MustReach: []string{"ran"}, MustAssert: []string{"C19.src.command-every-line-once", "C19.src.command-lines-in-order"}},
 		{Pkg: "components", Fn: "VxH19group", Params: p("n", 3), MustReach: []string{"ran"}, MustAssert: []string{"C19.concat.untagged-inputs-in-main-output", "C19.concat.tagged-inputs-in-tag-output"}},
 		{Pkg: "components", Fn: "VxH19src", MustReach: []string{"ran"}, MustAssert: []string{"C19.src.globber-matching-files-in-order", "C19.src.reader-lines-in-order"}},
 	}
@@ -350,7 +352,7 @@ func finishRegistry() {
 	// model validation: concrete scenarios run in the interpreter on the environment model
 	// and natively (real bash, real file system); see cmd/verif/nv.go
 	for id, scs := range map[string][]int{"C01": {0, 5, 6, 7, 8}, "C02": {0}, "C03": {0, 5, 6}, "C09": {0, 7, 8, 9}, "C04": {3}, "C05": {3}, "C16": {3}, "C08": {3},
-		"C10": {1, 5}, "C11": {1, 6}, "C12": {1}, "C17": {2}, "C19": {4}, "C18": {3}} {
+		"C10": {1, 5}, "C11": {1, 6}, "C12": {1}, "C17": {2}, "C19": {4, 10}, "C18": {3}} {
 		checks[id].NV = scs
 	}
 }
